@@ -163,3 +163,13 @@ func init() {
 		reg(name, func(in *Exec, _ *frame, a []value) value { return unreachable(in) })
 	}
 }
+
+// The file system is empty for a harness: reading a file by name fails like on a machine where the file does not
+// exist (noted in the evidence). Harnesses that hand the code key material do so inline.
+func init() {
+	reg("os.ReadFile", func(in *Exec, _ *frame, a []value) value {
+		in.W.X.note("os.ReadFile answered: no such file (the file system is empty in the model)")
+		var v value = structure{in.mkStr("open: no such file or directory (no file system in the model)")}
+		return tuple{[]value(nil), iface{t: types.NewPointer(in.namedType("errors", "errorString")), v: &v}}
+	})
+}
